@@ -490,6 +490,18 @@ fn g3(out: &mut Out, rng: &mut Rng, thorough: bool) -> io::Result<()> {
             }
         }
     }
+    // very many header lines (counters narrower than usize)
+    for &k in &[255usize, 256, 257, 300] {
+        let mut h = Vec::new();
+        for i in 0..k { h.extend_from_slice(format!("h{}: {}\r\n", i % 10, i % 7).as_bytes()); }
+        h.extend_from_slice(b"\r\n");
+        line(out, "hdrs", 0, k + 1, &h)?;
+        line(out, "hdrs", 0, k, &h)?;
+        let mut r = b"GET / HTTP/1.1\r\n".to_vec(); r.extend_from_slice(&h);
+        line(out, "req", 0, k + 1, &r)?;
+        let mut r = b"HTTP/1.1 200 OK\r\n".to_vec(); r.extend_from_slice(&h);
+        line(out, "resp", 0, k + 1, &r)?;
+    }
     // all 1000 status codes and a few non-codes
     for c in 0..1000 {
         let s = format!("HTTP/1.1 {:03} X\r\n\r\n", c);
@@ -654,6 +666,23 @@ fn g8(out: &mut Out, rng: &mut Rng, thorough: bool) -> io::Result<()> {
                             s[q] = 0x7f;
                             writeln!(out, "scan {} {} 0 {}", backend, class, hex(&s))?;
                         }
+                    }
+                }
+            }
+        }
+    }
+    // scanners entered with an uncommitted prefix behind the cursor (continuation line of a folded value):
+    // the prefix holds out-of-class bytes (CR LF, NUL), the scanned part is in class up to a stop byte
+    for backend in [0u8, 3] {
+        for class in 0..3u8 {
+            for &skip in &[1usize, 2, 7, 8, 9, 16, 30, 31, 32, 33, 40, 64] {
+                for &run in &[0usize, 1, 5, 15, 16, 17, 29, 30, 31, 32, 33, 47, 63, 64, 65, 90] {
+                    for &stop in &[Some(0x0du8), Some(0x00), Some(0x7f), None] {
+                        let mut s: Vec<u8> = (0..skip).map(|i| if i % 3 == 2 { b'a' } else if i % 3 == 0 { 0x0d } else { 0x0a }).collect();
+                        if skip >= 2 { let k = skip - 2; s[k] = 0x0d; s[k + 1] = 0x0a; }
+                        s.extend((0..run).map(|i| fill[i % 4]));
+                        if let Some(b) = stop { s.push(b); s.extend_from_slice(b"tail"); }
+                        writeln!(out, "scanat {} {} {} {}", backend, class, skip, hex(&s))?;
                     }
                 }
             }
@@ -1051,6 +1080,7 @@ pub fn cost_families(n: usize) -> Vec<(&'static str, &'static str, u32, Vec<u8>)
     v.push(("long-target", "req", 0, fill_to(b"GET /".to_vec(), b"a", n, b" HTTP/1.1\r\n\r\n")));
     v.push(("long-reason", "resp", 0, fill_to(b"HTTP/1.1 200 ".to_vec(), b"r", n, b"\r\n\r\n")));
     v.push(("leading-empty-lines", "req", 0, fill_to(Vec::new(), b"\r\n", n, b"GET / HTTP/1.1\r\n\r\n")));
+    v.push(("leading-empty-lines-lf", "resp", 0, fill_to(Vec::new(), b"\n", n, b"HTTP/1.1 200 OK\r\n\r\n")));
     v.push(("multi-spaces", "req", 4, fill_to(b"GET ".to_vec(), b" ", n, b"/ HTTP/1.1\r\n\r\n")));
     v.push(("partial-folds", "resp", 2, fill_to(rs.clone(), b"A: b\r\n c\r\n", n, b"")));
     v.push(("chunk-extension", "chunk", 0, fill_to(b"1f;".to_vec(), b"x", n, b"\r\n")));
